@@ -1,3 +1,3 @@
 From Coq Require Import ExtrOcamlBasic.
-From PTK Require Import Lib.Sx Model.C12_Divide.
+From PTK Require Import Lib.Sx Model.C12_Divide Model.C12_Layout.
 Extraction "c12_model.ml" run_C12.
